@@ -224,6 +224,84 @@ theorem C11_after_end_error (s : RS) (hdead : s.active = false) (idx : List Int)
     (reqStep s (.trig idx)).2 = 1 := by
   simp [reqStep, queued, hdead]
 
+/-! ### Every caller receives the result of ITS OWN closure -/
+
+/-- invariant of the hand-over: the only caller blocked on `queuedResults` is the one whose closure is running -/
+def HGood (s : HS) : Prop :=
+  (s.loop = none → s.waiting = []) ∧ (∀ o, s.loop = some o → s.waiting = [o]) ∧ ∀ p ∈ s.got, p.1 = p.2
+
+theorem hgood_step {s s' : HS} {e : HEv} (h : HGood s) (hs : hstep s e = some s') : HGood s' := by
+  obtain ⟨h1, h2, h3⟩ := h
+  cases e with
+  | call id =>
+    simp only [hstep, Option.some.injEq] at hs
+    subst hs
+    exact ⟨h1, h2, h3⟩
+  | take id =>
+    simp only [hstep] at hs
+    split at hs
+    · next hc =>
+      simp only [Option.some.injEq] at hs
+      subst hs
+      have hw := h1 hc.1
+      refine ⟨by simp, ?_, h3⟩
+      intro o ho
+      simp only [Option.some.injEq] at ho
+      simp [hw, ho]
+    · contradiction
+  | reply rcv =>
+    simp only [hstep] at hs
+    split at hs
+    · next o ho =>
+      split at hs
+      · next hm =>
+        simp only [Option.some.injEq] at hs
+        subst hs
+        have hw := h2 o ho
+        rw [hw] at hm
+        have hrc : rcv = o := by simpa using hm
+        subst hrc
+        refine ⟨by intro _; simp [hw], by simp, ?_⟩
+        intro p hp
+        simp only [List.mem_cons] at hp
+        rcases hp with rfl | hp
+        · rfl
+        · exact h3 p hp
+      · contradiction
+    · contradiction
+
+theorem hrun_good {s s' : HS} {evs : List HEv} (h : HGood s) (hr : hrun s evs = some s') : HGood s' := by
+  induction evs generalizing s with
+  | nil => simp [hrun] at hr; exact hr ▸ h
+  | cons e es ih =>
+    simp only [hrun] at hr
+    split at hr
+    · next s1 h1 => exact ih (hgood_step h h1) hr
+    · contradiction
+
+/-- **C11_reply_is_own**: with the unbuffered result channel, in EVERY interleaving of any number of callers
+(arbitrary arrival order, callers piling up on `queuedRequests` while a closure runs) each caller that has
+received a result received the result of its own closure; and at every moment at most one caller is blocked on
+`queuedResults`, namely the one whose closure is running. -/
+theorem C11_reply_is_own (evs : List HEv) (s : HS) (hr : hrun HS.init evs = some s) :
+    (∀ p ∈ s.got, p.1 = p.2) ∧ s.waiting.length ≤ 1 ∧ (∀ o, s.loop = some o → s.waiting = [o]) := by
+  have hg : HGood s := hrun_good (by simp [HGood, HS.init]) hr
+  refine ⟨hg.2.2, ?_, hg.2.1⟩
+  cases hl : s.loop with
+  | none => simp [hg.1 hl]
+  | some o => simp [hg.2.1 o hl]
+
+/-- non-vacuity: two callers in flight at once, the second one queued while the first closure runs -/
+example : hrun HS.init [.call 1, .call 2, .take 1, .reply 1, .take 2, .reply 2] =
+    some { loop := none, sending := [], waiting := [], got := [(2, 2), (1, 1)] } := by decide
+
+/-- what a one-slot buffer on `queuedResults` would allow (the reason the channel must stay unbuffered): the first
+closure parks its result, the loop takes the second request, and the second caller fetches the FIRST result -/
+theorem C11_buffered_reply_can_be_foreign :
+    ∃ s, hbrun { loop := none, slot := none, sending := [], waiting := [], got := [] }
+      [.call 1, .call 2, .take 1, .park, .take 2, .fetch 2, .park, .fetch 1] = some s ∧ (2, 1) ∈ s.got ∧ (1, 2) ∈ s.got := by
+  refine ⟨{ loop := none, slot := none, sending := [], waiting := [], got := [(1, 2), (2, 1)] }, by decide, by decide, by decide⟩
+
 /-! ### Serialisation with block processing -/
 
 /-- **C11_mutex_with_blocks**: in every state reachable under E, the only steps that change the processing
